@@ -186,3 +186,13 @@ def split_stub(S):
 
 
 REAL_SPLIT = Allocation.__dict__["_split_allocation"].__func__
+
+
+def flatmap_or_note(S, fn, idx=0, accumulators=("new_alloc",)):
+    """FLATMAP side condition of the per-cell lifting; when the loop no longer has that shape the per-cell obligations
+    are still checked but only as a bounded-structure leg (recorded in the evidence), never as a violation."""
+    try:
+        return loopshape.flatmap_shape(fn, idx, accumulators=list(accumulators))
+    except loopshape.ShapeError as e:
+        S.cover("loop-cut-not-applicable: " + fn.__qualname__ + ": " + str(e))
+        return None
